@@ -13,7 +13,8 @@ def _concretize_shapes():
 
     def conc(x):
         if isinstance(x, SymArray):
-            return _np.asarray(x)
+            from .arrays import concretize_array
+            return concretize_array(x)
         if isinstance(x, SV):
             return int(x)
         return x
